@@ -310,6 +310,7 @@ struct Node {
 };
 
 Node *new_cast(Node *expr, Type *ty);
+bool is_null_pointer_constant(Node *node);
 int64_t const_expr(Token **rest, Token *tok);
 Obj *parse(Token *tok);
 
